@@ -4,7 +4,10 @@
 use std::cmp::*;
 use std::f64;
 use std::ops::*;
+#[cfg(not(prometheus_verif))]
 use std::sync::atomic::{AtomicI64 as StdAtomicI64, AtomicU64 as StdAtomicU64, Ordering};
+#[cfg(prometheus_verif)]
+use crate::verif_sync::{AtomicI64 as StdAtomicI64, AtomicU64 as StdAtomicU64, Ordering};
 
 /// An interface for numbers. Used to generically model float metrics and integer metrics, i.e.
 /// [`Counter`](crate::Counter) and [`IntCounter`](crate::Counter).
